@@ -5,7 +5,10 @@ import copy
 OUTCOMES = ['done', 'failedRet', 'raises', 'retNone', 'notPair', 'badStatus', 'badUpdate',
             # variants of the classes above (mapped onto them for the model, see MODEL_OUTCOME)
             'sysExit', 'retWaiting', 'retPending', 'clobberOwn', 'badUpdateEmptyList', 'badUpdateZero', 'badUpdateEmptyStr',
-            'raisingIterable', 'ownReadOnly']
+            'raisingIterable', 'ownReadOnly',
+            # a well-formed pair whose update cannot be merged into the environment (a nested mapping addressed to a key that
+            # holds a number): the task is FAILED; the model has no such outcome - these cases are decided by the oracles only
+            'unappliable']
 # the model has one constructor per class of outcome; the concrete variants generated here are mapped onto their class:
 # an exception that is not an `Exception` (SystemExit) is a raising task, a status that is not a final one is a bad
 # status, an update that replaces the task's own entry by something that is not a mapping is a bad update
@@ -13,7 +16,7 @@ MODEL_OUTCOME = {'sysExit': 'raises', 'retWaiting': 'badStatus', 'retPending': '
                  'badUpdateEmptyList': 'badUpdate', 'badUpdateZero': 'badUpdate', 'badUpdateEmptyStr': 'badUpdate',
                  # a result whose unpacking raises something else than TypeError / ValueError is not a pair; an own entry
                  # that cannot be written to (read-only mapping) cannot be recorded: a bad update
-                 'raisingIterable': 'notPair', 'ownReadOnly': 'badUpdate'}
+                 'raisingIterable': 'notPair', 'ownReadOnly': 'badUpdate', 'unappliable': 'badUpdate'}
 CORRESPONDS = ('Model/Sched.lean (init, step, enabled, decide, terminal) vs valjean.cosette.backends.queue.QueueScheduling + '
                'valjean.cosette.env.Env under the controlled scheduler (harness/vcheck/ctlsched.py): the recorded schedule is '
                'replayed in the model; environment, queue, counters, what every task saw when it started and the set of enabled '
@@ -48,10 +51,14 @@ def gen_round(rng, n, deps, hard, profile):
             out.append(rng.choice(OUTCOMES[1:]))
         else:
             out.append('done')
-    return {'n': n, 'deps': [list(d) for d in deps[:n]], 'hard': [list(d) for d in hard[:n]], 'out': out,
-            'workers': rng.choice([1, 1, 2, 2, 3, 4, 6]), 'cyclic': False, 'lose': [], 'stale': [],
-            'sched': [rng.choice(['random', 'random', 'pct']), rng.randrange(1 << 30)], 'same_backend': False,
-            'twice': rng.random() < 0.4}
+    rnd = {'n': n, 'deps': [list(d) for d in deps[:n]], 'hard': [list(d) for d in hard[:n]], 'out': out,
+           'workers': rng.choice([1, 1, 2, 2, 3, 4, 6]), 'cyclic': False, 'lose': [], 'stale': [],
+           'sched': [rng.choice(['random', 'random', 'pct']), rng.randrange(1 << 30)], 'same_backend': False,
+           'twice': rng.random() < 0.4}
+    if n >= 2 and rng.random() < 0.3:
+        # the tasks are handed to the graphs in another order than their dependencies suggest
+        rnd['insert'] = rng.sample(range(n), n) if rng.random() < 0.6 else list(range(n - 1, -1, -1))
+    return rnd
 
 
 def regraph(rng, rnd):
@@ -251,6 +258,8 @@ def run_rounds(case, sched_override=None):
                     raise RuntimeError('scripted failure while the result is unpacked')
                     yield None      # pylint: disable=unreachable
                 return boom()
+            if out == 'unappliable':
+                return {'shared': {'blocker': {'x': 1}}, self.name: {'result': version}}, TaskStatus.DONE
             if out == 'ownReadOnly':
                 import types
                 return {self.name: types.MappingProxyType({'result': version})}, TaskStatus.DONE
@@ -266,9 +275,14 @@ def run_rounds(case, sched_override=None):
                  'clobber': rnd.get('clobber')}
         tasks = [Probe(i, state) for i in range(n)]
         hard_graph, soft_graph = DepGraph(), DepGraph()
-        for t in tasks:
-            hard_graph.add_node(t)
-        for t in range(n):
+        # the caller builds its graphs in any order: `insert` is the order in which the tasks (and their edges) are handed
+        # to the graphs; the master works through the tasks in the order of the topological sort of the full graph, which
+        # is then not the order of the task numbers (the comparison with the model goes through that permutation)
+        insert = [t for t in (rnd.get('insert') or []) if t < n]
+        insert += [t for t in range(n) if t not in insert]      # (a shrunk case may have fewer tasks)
+        for t in insert:
+            hard_graph.add_node(tasks[t])
+        for t in insert:
             for d in rnd['deps'][t]:
                 if d in rnd['hard'][t]:
                     hard_graph.add_dependency(tasks[t], on=tasks[d])
@@ -302,6 +316,8 @@ def run_rounds(case, sched_override=None):
                 if with_clocks:
                     sub.update(start_clock=0.0, end_clock=0.0, result=0)
                 env_in[f't{t}'] = sub
+            if 'unappliable' in rnd['out']:
+                env_in['shared'] = {'blocker': 0}
             obs['env0'] = [entry_digest(env_in.get(f't{t}')) for t in range(n)]
             ctl.clock = clock
             state['ctl'] = ctl
@@ -330,7 +346,8 @@ def run_rounds(case, sched_override=None):
                     'exec': list(state['exec']),
                     'seen': copy.deepcopy(state['seen']),
                     'en': enabled})
-            ctl.on_step = on_step
+            # a large job (a thousand tasks): only the C03 clauses are decided, no per-step record, no model replay
+            ctl.on_step = None if rnd.get('big') else on_step
             order_ok = True
             try:
                 if rnd.get('twice'):
@@ -339,7 +356,8 @@ def run_rounds(case, sched_override=None):
                 scheduler = Scheduler(hard_graph=hard_graph, soft_graph=soft_graph, backend=backend)
                 if not rnd['cyclic']:
                     order = [t.idx for t in scheduler.full_graph.topological_sort()]
-                    order_ok = order == list(range(n))
+                    order_ok = sorted(order) == list(range(n))
+                    obs['perm'] = order
                 env_out = scheduler.schedule(env=env_in)
                 obs['returned'] = True
             except ctlsched.Abort:
@@ -396,12 +414,34 @@ def run_model(case, driver, run, impl=None):
     """replay, per round, the schedule recorded on the implementation"""
     if impl is None:
         impl = _LAST['impl']
+    if any(rnd.get('big') or 'unappliable' in rnd['out'] for rnd in case['rounds']):
+        return None
     outs = []
     for rnd, obs in zip(case['rounds'], impl['rounds']):
-        rep = driver.ask('sched', {'cfg': model_cfg(rnd), 'env': obs['env0'], 'queue': obs['queue0'],
+        cfg, env0, queue0 = model_cfg(rnd), obs['env0'], obs['queue0']
+        perm = obs.get('perm')
+        if perm and perm != list(range(rnd['n'])) and sorted(perm) == list(range(rnd['n'])):
+            # the model numbers the tasks in the order the master works through them
+            inv = {label: k for k, label in enumerate(perm)}
+            cfg = dict(cfg, deps=[[inv[d] for d in rnd['deps'][t]] for t in perm],
+                       hard=[[inv[d] for d in rnd['hard'][t]] for t in perm], out=[cfg['out'][t] for t in perm])
+            env0 = [env0[t] for t in perm]
+            queue0 = [None if x is None else inv.get(x, x) for x in queue0]
+        rep = driver.ask('sched', {'cfg': cfg, 'env': env0, 'queue': queue0,
                                    'unfinished': obs['unfinished0'], 'clock': obs['clock0'], 'steps': obs['trace']})
         outs.append(rep)
     return {'rounds': outs}
+
+
+def relabel_digest(dig, perm):
+    """an implementation-side state in the model's task numbers"""
+    inv = {label: k for k, label in enumerate(perm)}
+    out = dict(dig)
+    out['env'] = [dig['env'][t] for t in perm]
+    out['exec'] = [dig['exec'][t] for t in perm]
+    out['seen'] = [dig['seen'][t] for t in perm]
+    out['queue'] = [None if x is None else inv.get(x, x) for x in dig['queue']]
+    return out
 
 
 def compare(case, impl, model):
@@ -412,11 +452,14 @@ def compare(case, impl, model):
         if '!driver-error' in rep:
             return f"round {ri}: driver error {rep['!driver-error']}"
         if not obs['order_ok']:
-            return f'round {ri}: topological_sort did not return the tasks in index order (harness assumption)'
+            return f'round {ri}: topological_sort did not return every task once (harness assumption)'
         if rep['rejected'] is not None:
             k = rep['rejected']
             return f"round {ri}: the model rejects step #{k} {obs['trace'][k]} of the recorded schedule"
         imp_digests = obs['digests'] + [obs['final']]
+        perm = obs.get('perm')
+        if perm and perm != list(range(len(perm))):
+            imp_digests = [relabel_digest(d, perm) for d in imp_digests]
         mod_digests = rep['digests']
         if len(imp_digests) != len(mod_digests):
             return f'round {ri}: {len(imp_digests)} states recorded, {len(mod_digests)} in the model'
